@@ -3,6 +3,7 @@ package main
 import (
 	"fmt"
 	"go/token"
+	"go/types"
 	"sort"
 	"strings"
 
@@ -1478,4 +1479,161 @@ func ruleWalCounterUnderLock(c *Ctx, r *Reporter) {
 		r.Check(bad == 0, FnName(fn)+":nextSequence", p, fmt.Sprintf("%d access(es), all with WAL.mu held", n),
 			fmt.Sprintf("%d of %d access(es) to the sequence counter happen without WAL.mu: a reader (the rotation's hand-over through GetNextSequence) no longer waits for an append in flight and copies a counter the in-flight batch is about to use", bad, n))
 	}
+}
+
+// ruleSessionsMapWriters: every write to the content of Primary.sessions (insert, delete, replacement) holds Primary.mu
+// exclusively. The write path iterates the map under the shared lock inside wal.Append; a map write under the shared lock
+// aborts the process ("concurrent map iteration and map write").
+func ruleSessionsMapWriters(c *Ctx, r *Reporter) {
+	r.Rule("session-map-written-under-exclusive-lock", 2)
+	sessF := c.Field("pkg/replication", "Primary", "sessions")
+	if sessF == nil {
+		r.Unresolved("replication.Primary.sessions", "field not found")
+		return
+	}
+	li := c.Locks()
+	ctor := c.CtorOnly()
+	for _, fn := range c.KevoFns {
+		if pkgOf(fn) != "pkg/replication" || ctor[topParent(fn)] || strings.HasPrefix(topParent(fn).Name(), "New") {
+			continue
+		}
+		idx := 0
+		AllInstrs(fn, false, func(_ *ssa.Function, ins ssa.Instruction) {
+			w := false
+			switch x := ins.(type) {
+			case *ssa.MapUpdate:
+				w = isLoadOfField(x.Map, sessF)
+			case *ssa.Call:
+				if b, ok := x.Call.Value.(*ssa.Builtin); ok && (b.Name() == "delete" || b.Name() == "clear") {
+					w = isLoadOfField(x.Call.Args[0], sessF)
+				}
+			case *ssa.Store:
+				w = fieldVarOf(x.Addr) == sessF
+			}
+			if !w {
+				return
+			}
+			idx++
+			held := li.HeldAt(ins)
+			r.Check(held.Holds("replication.Primary.mu", "W"), fmt.Sprintf("%s:sessions-write#%d", FnName(topParent(fn)), idx), c.InsPos(ins), "Primary.mu is held exclusively",
+				"the session map is written while Primary.mu is held only shared or not at all (held: "+held.String()+"): the write path iterates this map under the shared lock inside wal.Append — the Go runtime aborts the process on a concurrent map iteration and write, i.e. a replica coming or going crashes the primary")
+		})
+	}
+}
+
+// ruleApplierAlwaysApplies: every success exit of EngineApplier.Apply returns the result of the mode-specific apply
+// function: no path answers 'done' without having performed the operation (a 'seen already' shortcut would skip an entry
+// whose first attempt failed and is being retransmitted).
+func ruleApplierAlwaysApplies(c *Ctx, r *Reporter) {
+	r.Rule("apply-performs-the-operation", 1)
+	fn := c.Func("pkg/replication", "EngineApplier", "Apply")
+	ro := c.Func("pkg/replication", "EngineApplier", "applyInReadOnlyMode")
+	nm := c.Func("pkg/replication", "EngineApplier", "applyInNormalMode")
+	if fn == nil || ro == nil || nm == nil {
+		r.Unresolved("replication.EngineApplier.{Apply,applyInReadOnlyMode,applyInNormalMode}", "not found")
+		return
+	}
+	var bad []string
+	n := 0
+	for _, ret := range Returns(fn) {
+		v := resolveLoad(ReturnValue(ret, 0))
+		n++
+		ok := false
+		var check func(v ssa.Value, d int) bool
+		check = func(v ssa.Value, d int) bool {
+			if d > 4 {
+				return false
+			}
+			switch x := v.(type) {
+			case *ssa.Call:
+				g := x.Call.StaticCallee()
+				return g == ro || g == nm
+			case *ssa.Phi:
+				for _, e := range x.Edges {
+					if !check(e, d+1) {
+						return false
+					}
+				}
+				return true
+			}
+			return false
+		}
+		ok = check(v, 0)
+		if !ok && ClassifyReturn(ret) == ExitFailure {
+			ok = true // refusing with an error is fine
+		}
+		if !ok {
+			bad = append(bad, Path(v)+" at "+c.InsPos(ret))
+		}
+	}
+	// and the applier keeps no state of its own that could decide to skip
+	st := c.Named("pkg/replication", "EngineApplier")
+	extra := ""
+	if st != nil {
+		if s, ok := st.Underlying().(*types.Struct); ok && s.NumFields() != 1 {
+			var fs []string
+			for i := 0; i < s.NumFields(); i++ {
+				fs = append(fs, s.Field(i).Name())
+			}
+			extra = " (EngineApplier has state beyond the engine: " + strings.Join(fs, ", ") + ")"
+		}
+	}
+	r.Check(len(bad) == 0 && n > 0, "replication.EngineApplier.Apply:exits", c.FnPos(fn), "every non-failing exit returns the result of applyInReadOnlyMode / applyInNormalMode",
+		"Apply can answer success without performing the operation (returns "+strings.Join(bad, "; ")+")"+extra+": an entry whose first application failed is reported applied when it is retransmitted — the replica skips it for good while reporting its sequence as applied")
+}
+
+// ruleCatchUpFlushesFirst: GetEntriesFrom re-reads the log FILES; the writes still sitting in the buffered writer must be
+// flushed to the file first, otherwise a replica that has to catch up (late join, reconnect) never sees the newest writes
+// under SyncBatch/SyncNone.
+func ruleCatchUpFlushesFirst(c *Ctx, r *Reporter) {
+	r.Rule("catch-up-read-flushes-the-buffer-first", 1)
+	a := getWalAnchors(c, r)
+	from := c.Func("pkg/wal", "WAL", "GetEntriesFrom")
+	fromFile := c.Func("pkg/wal", "WAL", "getEntriesFromFile")
+	if !a.ok || from == nil || fromFile == nil {
+		if a.ok {
+			r.Unresolved("wal.WAL.GetEntriesFrom / getEntriesFromFile", "not found")
+		}
+		return
+	}
+	isFlush := func(x ssa.Instruction) bool {
+		call, ok := x.(*ssa.Call)
+		if !ok {
+			return false
+		}
+		if staticName(call) == "(*bufio.Writer).Flush" {
+			return true
+		}
+		g := call.Call.StaticCallee()
+		return g != nil && (g == a.syncLocked || g == a.sync)
+	}
+	// the reads: calls that reach getEntriesFromFile (directly or through a helper)
+	reach := c.ReachSet(NewFnSet(fromFile), true)
+	var firstBad ssa.Instruction
+	var badPath []*ssa.BasicBlock
+	n := 0
+	AllInstrs(from, false, func(_ *ssa.Function, ins ssa.Instruction) {
+		call, ok := ins.(*ssa.Call)
+		if !ok {
+			return
+		}
+		g := call.Call.StaticCallee()
+		if g == nil || !(g == fromFile || reach[g]) {
+			return
+		}
+		n++
+		if hit, path := ReachE(from, nil, func(x ssa.Instruction) bool { return x == ins }, isFlush, nil); hit != nil && firstBad == nil {
+			firstBad, badPath = ins, path
+		}
+	})
+	if n == 0 {
+		r.Undecided("wal.WAL.GetEntriesFrom:reads", c.FnPos(from), "no file read found")
+		return
+	}
+	p := c.FnPos(from)
+	if firstBad != nil {
+		p = c.InsPos(firstBad)
+	}
+	r.Check(firstBad == nil, "wal.WAL.GetEntriesFrom:flush-before-read", p, "the buffered writer is flushed before any log file is read",
+		"a log file can be read without the buffered writer having been flushed: what GetEntriesFrom returns lacks the writes still in the buffer, so under SyncBatch/SyncNone a replica that must catch up (late join, restart, reconnect) never receives the newest writes and the poll keeps sending nothing", c.PathString(badPath)...)
 }
